@@ -810,6 +810,10 @@ def run_case(rng, tier, res):
             else:
                 yield from host.gap()
         yield from host.idle(bus_timeout + 20)
+        for _ in range(700):                   # let a packet that is on the wire finish (a stuck transmitter will not)
+            if st["cur"] is None:
+                break
+            yield
 
     b.add_driver(driver())
     b.run()
@@ -822,7 +826,9 @@ def run_case(rng, tier, res):
     if st["cur"] is not None:
         cur = st["cur"]
         cur["end"] = b.cycle
-        if not cur["src"][0]:
+        # (a session that ends inside a stream of back-to-back packets always ends inside one of them: only a packet that
+        #  has been open for a long time is a transmitter that is stuck)
+        if not cur["src"][0] and b.cycle - cur["first_valid"] > 600:
             viol(b.cycle, "packet_never_ends", "tx_valid high from cycle %d to the end of the session (%d bytes accepted)" % (cur["first_valid"], len(cur["data"])))
 
     # ------------------------------------------------------------------ classifier for the known finding (findings/C20.md)
